@@ -1,6 +1,6 @@
 import numpy as np, warnings
 warnings.simplefilter('ignore')
-exec(open('/tmp/w/spikeF.py').read().split("for name,o in objs.items():")[0])
+exec(open('/verif/design_spikes/spikeF.py').read().split("for name,o in objs.items():")[0])
 from menpo.base import Vectorizable
 objs['hom']=Homogeneous(np.array([[1,.2,3],[.1,2,1],[0.01,0.02,1.]]))
 objs['sim']=Similarity(np.array([[1,-.2,3],[.2,1,1],[0,0,1.]])); objs['tr']=Translation([1,2.]); objs['nus']=NonUniformScale([1,2.])
